@@ -5,6 +5,7 @@
 // This is the edge  Query(B) from "cached = A"  of ZoneProc.tla (invariant HistoryIndependent) instantiated for every
 // zone of the database and every pair of years, rather than for one representative per argument class.
 //   pairdrv <basic|extended> <i0> <i1> <y0> <y1> <stepDays>
+//   pairdrv tables <i0> <i1> <y0> <y1>      finished per-year tables of the extended processor (ExtProc.tla binding)
 // stdout: one JSON line per mismatch (at most one per zone x B x kind) and a final {"done":..} line.
 #include <stdio.h>
 #include <stdlib.h>
@@ -62,6 +63,44 @@ static std::string answers(const TimeZone& tz, long t) {
   snprintf(b, sizeof b, "%d/%d/%s/%d:%d-%d-%d %d:%d%+d", u.isError() ? 9999 : u.toMinutes(), d.isError() ? 9999 : d.toMinutes(), a ? a : "<null>",
       (int) o.isError(), o.year(), o.month(), o.day(), o.hour(), o.minute(), o.isError() ? 0 : o.timeOffset().toMinutes());
   return b;
+}
+
+
+// tables: the finished per-year table of a never-used ExtendedZoneProcessor, field by field (binding of ExtProc.tla)
+static std::string tuple_json(const extended::DateTuple& t) {
+  char b[80];
+  const char* sf = t.suffix == extended::ZoneContext::kSuffixS ? "s" : (t.suffix == extended::ZoneContext::kSuffixU ? "u" : (t.suffix == extended::ZoneContext::kSuffixW ? "w" : "?"));
+  snprintf(b, sizeof b, "[%d,%d,%d,%d,\"%s\"]", t.yearTiny + 2000, t.month, t.day, t.minutes, sf);
+  return b;
+}
+static int tables_extended(int i0, int i1, int y0, int y1) {
+  for (int i = i0; i < i1 && i < zonedbx::kZoneRegistrySize; i++) {
+    const extended::ZoneInfo* zi = zonedbx::kZoneRegistry[i];
+    std::string out = "{\"zone\":" + jstr((const char*) ExtendedZone(zi).name()) + ",\"years\":{";
+    for (int y = y0; y <= y1; y++) {
+      void* mem = calloc(1, sizeof(ExtendedZoneProcessor));
+      ExtendedZoneProcessor* p = new (mem) ExtendedZoneProcessor();
+      TimeZone tz = TimeZone::forZoneInfo(zi, p);
+      p->resetTransitionHighWater();
+      tz.getUtcOffset((acetime_t) (days_from_civil(y, 7, 2) * 86400L));
+      char b[160];
+      snprintf(b, sizeof b, "%s\"%d\":{\"filled\":%d,\"nm\":%d,\"hw\":%d,\"rows\":[", y == y0 ? "" : ",", y, (int) p->mIsFilled, (int) p->mNumMatches, (int) p->getTransitionHighWater());
+      out += b;
+      extended::Transition** tb = p->mTransitionStorage.getActivePoolBegin();
+      extended::Transition** te = p->mTransitionStorage.getActivePoolEnd();
+      for (extended::Transition** it = tb; it != te; ++it) {
+        const extended::Transition* t = *it;
+        snprintf(b, sizeof b, "%s[%ld,%d,%d,", it == tb ? "" : ",", (long) t->startEpochSeconds, t->offsetMinutes, t->deltaMinutes);
+        out += b; out += jstr(t->abbrev) + "," + tuple_json(t->startDateTime) + "," + tuple_json(t->untilDateTime) + "]";
+      }
+      out += "]}";
+      p->~ExtendedZoneProcessor();
+      free(mem);
+    }
+    out += "}}";
+    puts(out.c_str());
+  }
+  return 0;
 }
 
 template <typename ZI, typename ZP, typename ZONE>
@@ -122,6 +161,7 @@ static int run(const ZI* const* reg, int n, int i0, int i1, int y0, int y1, int 
 }
 
 int main(int argc, char** argv) {
+  if (argc >= 6 && !strcmp(argv[1], "tables")) return tables_extended(atoi(argv[2]), atoi(argv[3]), atoi(argv[4]), atoi(argv[5]));
   if (argc < 7) return 2;
   int i0 = atoi(argv[2]), i1 = atoi(argv[3]), y0 = atoi(argv[4]), y1 = atoi(argv[5]), step = atoi(argv[6]);
   if (!strcmp(argv[1], "basic"))
